@@ -51,6 +51,7 @@ THEOREMS = [
     "OllamaVerif.C14.no_stop_in_output_fixed",
     "OllamaVerif.C14.single_stop",
     "OllamaVerif.C14.consumer_schedule_independent",
+    "OllamaVerif.C14.c14_streamed_text",
     "OllamaVerif.C14.F7_first_listed_not_earliest",
     "OllamaVerif.C14.F20_invalid_bytes_dropped",
     "OllamaVerif.C14.F20_reason_not_injective",
@@ -61,6 +62,7 @@ THEOREMS = [
     "OllamaVerif.Stop.findStopEarliest_spec",
     "OllamaVerif.Stop.consumed_gen",
     "OllamaVerif.Stop.runSched_eq_run",
+    "OllamaVerif.Stop.truncateStop_shape",
 ]
 # Model variant the oracle is asked to run: 1 = FindStop as pinned in /repo (first listed stop, finding F7),
 # 0 = the repaired FindStop of proposed_fixes/C14-F7.patch.  ONE EDIT when the fix is applied to /repo: set to 0
